@@ -761,6 +761,7 @@ pub fn run(tier: Tier) -> i32 {
         let mut outcomes: BTreeSet<u64> = BTreeSet::new();
         let mut errs: Vec<String> = vec![];
         let mut divergences = 0u64;
+        let mut retried = 0u64;
         let mut f16 = 0u64;
         let mut unconfirmed = 0u64;
         for j in s..e {
@@ -770,12 +771,28 @@ pub fn run(tier: Tier) -> i32 {
             let mut stack: Vec<Vec<usize>> = vec![vec![]];
             let mut first = true;
             while let Some(choices) = stack.pop() {
-                let r = catch(|| execute_observed(prefix, batch, &choices));
+                // The server iterates over its document table (a `HashMap` with a per-instance random
+                // hasher) when it refreshes every open document, so with two documents open the order
+                // of its I/O — and with it the shape of the choice tree — is a coin the harness cannot
+                // own without a source hook. A schedule recorded under one order is re-executed until
+                // the same order comes up again (both orders are explored over the run; what is left
+                // after 12 attempts is counted as a divergence and not judged).
+                let mut r = catch(|| execute_observed(prefix, batch, &choices));
+                for _ in 0..12 {
+                    if !matches!(r, Ok(Err(ref e)) if e.starts_with("replay divergence")) {
+                        break;
+                    }
+                    retried += 1;
+                    r = catch(|| execute_observed(prefix, batch, &choices));
+                }
                 let (sess, tl, ok) = match r {
                     Ok(Ok(x)) => x,
                     Ok(Err(e)) => {
                         if e.starts_with("replay divergence") {
                             divergences += 1;
+                            if std::env::var("HV_DEBUG").is_ok() {
+                                eprintln!("DIVERGENCE {prefix:?} {batch:?} {choices:?}: {e}");
+                            }
                         } else if e.starts_with("deadlock") {
                             // confirm by replay, then report: the server never reaches quiescence
                             let again = catch(|| execute(prefix, batch, &choices));
@@ -871,7 +888,7 @@ pub fn run(tier: Tier) -> i32 {
                 }
             }
         }
-        (execs, steps, batches, overlapped, outcomes, viols, errs, divergences, f16, unconfirmed)
+        (execs, steps, batches, overlapped, outcomes, viols, errs, divergences, f16, unconfirmed, retried)
     });
     let mut execs = 0;
     let mut batches = 0;
@@ -879,7 +896,9 @@ pub fn run(tier: Tier) -> i32 {
     let mut divergences = 0;
     let mut f16 = 0;
     let mut unconfirmed = 0;
-    for (x, st, b, o, oc, vs, errs, dv, f, uc) in res {
+    let mut retried = 0;
+    for (x, st, b, o, oc, vs, errs, dv, f, uc, rt) in res {
+        retried += rt;
         unconfirmed += uc;
         execs += x;
         transitions += st;
@@ -900,12 +919,13 @@ pub fn run(tier: Tier) -> i32 {
     report.set("schedules_with_overlapping_handlers", overlapped);
     report.set("deviation_bound", bound as u64);
     report.set("replay_divergences", divergences);
+    report.set("re-executions_until_the_document_table_order_matched", retried);
+    report.set("exhaustive", divergences == 0);
     report.set("failures_not_reproduced_on_replay(not reported)", unconfirmed);
     report.set("executions_explained_only_by_F16", f16);
     report.set("states", seq_ran + execs);
     report.set("transitions", transitions);
     report.set("traces_validated_against_impl", seq_ran + execs);
-    report.set("exhaustive", true);
     report.sample(describe(&[Op::Open(0, 0)], &[Op::Change(0, 1), Op::AddUser(0, "tset")], &[0, 0, 2], &["admit".into(), "admit".into(), "answer:#3".into()]));
     report.assume("explored object is the real Backend behind the real tower-lsp router; schedules: ready tasks run in wake order (as FuturesUnordered does); only external events (client answers, I/O completions, admission) are reordered, each by a bounded number of deviations from first-come-first-served");
     report.assume("file I/O confined to one gated blocking thread so that completions are explicit events; process-death and power-loss are not modelled here (C07)");
